@@ -98,3 +98,39 @@ Lemma fixed_hops_selects_dsl_frame : forall bf site d u rest,
   fr_kind d = Dsl -> select 2 false (bf :: site :: d :: u :: rest) = Some d.
 Proof. reflexivity. Qed.
 
+
+(* ---- text.split('\n'): never empty, and join is its inverse *)
+Fixpoint split_lines (s : string) : list string :=
+  match s with
+  | EmptyString => [EmptyString]
+  | String c r =>
+      if Ascii.eqb c (ascii_of_nat 10) then EmptyString :: split_lines r
+      else match split_lines r with
+           | h :: t => String c h :: t
+           | [] => [String c EmptyString]
+           end
+  end.
+
+Lemma split_lines_nonempty s : split_lines s <> [].
+Proof.
+  destruct s as [|c r]; simpl; [discriminate|].
+  destruct (Ascii.eqb c (ascii_of_nat 10)); [discriminate|]. destruct (split_lines r); discriminate.
+Qed.
+
+Lemma join_cons_nonempty h x t : join (h :: x :: t) = (h ++ nl ++ join (x :: t))%string.
+Proof. reflexivity. Qed.
+
+Theorem join_split_lines : forall s, join (split_lines s) = s.
+Proof.
+  induction s as [|c r IH]; [reflexivity|]. simpl.
+  destruct (Ascii.eqb c (ascii_of_nat 10)) eqn:E.
+  - apply Ascii.eqb_eq in E. subst c.
+    destruct (split_lines r) as [|x t] eqn:Er; [exfalso; eapply split_lines_nonempty; eauto|].
+    rewrite join_cons_nonempty, IH. reflexivity.
+  - destruct (split_lines r) as [|h t] eqn:Er; [exfalso; eapply split_lines_nonempty; eauto|].
+    destruct t as [|x t'].
+    + simpl in IH |- *. rewrite IH. reflexivity.
+    + rewrite join_cons_nonempty in IH. rewrite join_cons_nonempty.
+      change ((String c h ++ nl ++ join (x :: t'))%string) with (String c (h ++ nl ++ join (x :: t'))%string).
+      rewrite IH. reflexivity.
+Qed.
